@@ -18,6 +18,7 @@ import RsassModel.Value.OrderMapLemmas
 import RsassModel.Value.MapFn
 import RsassModel.Value.Lemmas
 import RsassModel.Value.SimpleKeys
+import RsassModel.Value.StructKeys
 import RsassModel.Num.XRatLaws
 namespace C13
 open Val Num OM
@@ -243,6 +244,56 @@ theorem number_eq_not_transitive :
     V.eq Val.spec env0 (.num ⟨2 ^ 53 - 1, 2 ^ 53⟩ 0) (.num one 0) = true
     ∧ V.eq Val.spec env0 (.num one 0) (.num ⟨2 ^ 52 + 1, 2 ^ 52⟩ 0) = true
     ∧ V.eq Val.spec env0 (.num ⟨2 ^ 53 - 1, 2 ^ 53⟩ 0) (.num ⟨2 ^ 52 + 1, 2 ^ 52⟩ 0) = false := by
+  decide +kernel
+
+/-- `==` is an equivalence on null, booleans, functions and ALL strings — escapes included, same
+or different quote kinds — with the unquote-based `CssString::eq` (code since 5b7f338 = spec). -/
+theorem keys_equivalence_strings (q : ValQuirks) (hq : q.strEqSameQuotesRaw = false) (env : Env ν) :
+    KEquiv (keqAtom q env) := kequiv_atom q hq env
+
+/-- … and on structured keys: lists, nested to any depth, of such keys (mutual structural
+induction through a canonical tree on which `==` is plain equality). -/
+theorem keys_equivalence_structured (q : ValQuirks) (hq : q.strEqSameQuotesRaw = false) (env : Env ν) :
+    KEquiv (keqGood q env) := kequiv_good q hq env
+
+/-- hence the "other keys" laws hold for such keys with NO equivalence hypothesis, for the code as
+it is today: `map.get` of another key after `map.set`, … -/
+theorem get_set_other_structured (env : Env ν) (m : List (GoodKey ν × V ν)) (k k' : GoodKey ν) (v : V ν)
+    (h : keqGood asis env k k' = false) :
+    OM.get (keqGood asis env) (OM.insert (keqGood asis env) m k v).1 k' = OM.get (keqGood asis env) m k' :=
+  get_set_other_equiv (keqGood asis env) (kequiv_good asis rfl env) m k k' v h
+
+/-- … `map.merge`: m2's values win, … -/
+theorem merge_values_right_wins_structured (env : Env ν) (m1 m2 : List (GoodKey ν × V ν))
+    (hd : OM.NoDup (keqGood asis env) m2) (k : GoodKey ν) (v : V ν) (hm : (k, v) ∈ m2) :
+    OM.get (keqGood asis env) (OM.merge (keqGood asis env) m1 m2) k = some v :=
+  merge_values_right_wins (keqGood asis env) (kequiv_good asis rfl env) m1 m2 hd k v hm
+
+/-- … and `map.remove` leaves other keys alone. -/
+theorem get_remove_other_structured (env : Env ν) (m : List (GoodKey ν × V ν)) (k k' : GoodKey ν)
+    (h : keqGood asis env k k' = false) :
+    OM.get (keqGood asis env) (OM.remove (keqGood asis env) m k) k' = OM.get (keqGood asis env) m k' :=
+  get_remove_other (keqGood asis env) (kequiv_good asis rfl env) m k k' h
+
+/-- a structured key with an escape: `("a\20 b" (x null))` is a good key -/
+example : (V.list [.str [97, 92, 32, 98] .dbl, .list [.str [120] .none, .null] .space false] .space false : V XRat).goodKey = true := by
+  decide +kernel
+
+/-- The old same-quote fast path (flag `strEqSameQuotesRaw`) breaks transitivity on strings:
+`"a b" == a b` (unquoted) and unquoted `== "a\ b"`, but `"a b" == "a\ b"` was false — the
+hypothesis `strEqSameQuotesRaw = false` cannot be dropped. -/
+theorem string_eq_old_not_transitive :
+    V.eq asisOld env0 (.str [97, 32, 98] .dbl) (.str [97, 32, 98] .none) = true
+    ∧ V.eq asisOld env0 (.str [97, 32, 98] .none) (.str [97, 92, 32, 98] .dbl) = true
+    ∧ V.eq asisOld env0 (.str [97, 32, 98] .dbl) (.str [97, 92, 32, 98] .dbl) = false := by
+  decide +kernel
+
+/-- Colours cannot be added without a hypothesis: channel comparison has a tolerance of 1e-7 and is
+not transitive (red channels 0, 0.6e-7, 1.2e-7). -/
+theorem color_eq_not_transitive :
+    V.eq Val.spec env0 (.color ⟨0, 1⟩ ⟨0, 1⟩ ⟨0, 1⟩ one) (.color ⟨6, 10 ^ 8⟩ ⟨0, 1⟩ ⟨0, 1⟩ one) = true
+    ∧ V.eq Val.spec env0 (.color ⟨6, 10 ^ 8⟩ ⟨0, 1⟩ ⟨0, 1⟩ one) (.color ⟨12, 10 ^ 8⟩ ⟨0, 1⟩ ⟨0, 1⟩ one) = true
+    ∧ V.eq Val.spec env0 (.color ⟨0, 1⟩ ⟨0, 1⟩ ⟨0, 1⟩ one) (.color ⟨12, 10 ^ 8⟩ ⟨0, 1⟩ ⟨0, 1⟩ one) = false := by
   decide +kernel
 
 end C13
